@@ -258,13 +258,14 @@ def tokEvents (t : String) : Option (List ReaderClose.Event) :=
   | ["gj", m] => do some [.join (← parseMember m)]
   | ["gJ", m] => do match (← parseMember m) with | some n => some [.joinOk n] | none => none
   | ["gE"] => some [.joinErr, .coordErr]
+  | ["gF"] => some [.coordErr]
   | ["gs"] => some [.sync]
   | ["go"] => some [.offsetFetch]
   | ["gh", m] => do match (← parseMember m) with | some n => some [.heartbeat n] | none => none
   | ["gc"] => some [.commit]
   | ["gl", m] => do match (← parseMember m) with | some n => some [.leave n] | none => none
   | ["co", _] => some [.coordOpen]
-  | ["cc", _] => some [.connClose]
+  | ["cc", _] => some [.coordClose]
   | ["bo", _] => some [.dial]
   | ["bc", _] => some [.connClose]
   | ["fq"] => some [.fetchReq]
@@ -337,7 +338,12 @@ def holds (toks : List String) : Bool :=
       else if t == "gE" then (if acc.2 then (none, false) else acc)
       else if t.startsWith "gl/" then (if acc.1 == some (t.drop 3).toString then (none, acc.2) else acc)
       else acc) (none, false)
-  let m3 := xr.isNone || held.1.isNone
+  -- … unless the coordinator could not be reached after Close began (the lookup `leaveGroup` needs failed):
+  -- then no LeaveGroup can be sent and the property cannot ask for one
+  let lookupFailed := match xb with
+    | some i => z.any fun x => x.2 > i && x.1 == "gF"
+    | none => false
+  let m3 := xr.isNone || held.1.isNone || lookupFailed
   -- M4/M5/M6 every call returns; results after Close; cancelled calls
   let calls := toks.filterMap fun t => match t.splitOn "/" with | ["rb", c, k] => some (c, k) | _ => none
   let m456 := calls.all fun (c, k) =>
@@ -358,7 +364,14 @@ def holds (toks : List String) : Bool :=
       else (res != "ctx" || cancelled) && (res != "eof" || xb.isSome) && (res != "closed" || xb.isSome) && (res != "gclosed" || xb.isSome)
   -- M7 census
   let m7 := toks.all fun (t : String) => !(t.startsWith "lk/" || t.startsWith "oc/") || t == "lk/0" || t == "oc/0"
-  m1 && m2 && m3 && m456 && m7
+  -- M8 each connection the Reader / ConsumerGroup opened (fetcher `bo/n`, coordinator `co/n`) is closed, once,
+  -- before Close returns
+  let m8 := xr.isNone || toks.all fun (t : String) =>
+    if t.startsWith "co/" || t.startsWith "bo/" then
+      let c := (if t.startsWith "co/" then "cc/" else "bc/") ++ (t.drop 3).toString
+      (z.filter fun x => x.1 == c && (match xr with | some i => decide (x.2 < i) | none => true)).length == 1
+    else true
+  m1 && m2 && m3 && m456 && m7 && m8
 
 /-- Transport round trips: each call is `roundTrip`; cancelled calls must have returned the context's error -/
 def holdsT (toks : List String) : Bool :=
@@ -434,21 +447,60 @@ def parseEv (tok : String) : Option Ev :=
   | _ => none
 
 
-/-- deterministic acceptance: fold `step` (D9-repaired code) over the events -/
-def replay (nw : Nat) (evs : List (String × Ev)) : String × Option St := Id.run do
+/-- one line of the ordered log: a GroupRun event, or a coordinator connection being opened / closed -/
+inductive Item | ev (e : Ev) | copen (n : Nat) | cclose (n : Nat)
+
+def parseItem (t : String) : Option Item :=
+  match t.splitOn ":" with
+  | ["cOpen", n] => n.toNat?.map .copen
+  | ["cClose", n] => n.toNat?.map .cclose
+  | _ => (parseEv t).map .ev
+
+/-- connections the `run` goroutine may hold in a quiescent phase of its loop: none (every path through
+`coordinator()`, `nextGeneration` and `leaveGroup` — answered, rejected or failed — closes what it opened) -/
+def quiescentPC : PC → Bool
+  | .exited | .backoffP _ | .coord 0 _ => true   -- `coord 0`: a new `coordinator()` lookup starts
+  | _ => false
+
+/-- steps of the `run` goroutine that leave a quiescent phase -/
+def _root_.KV.Group.Ev.runLoop' : Ev → Bool
+  | .connectRes _ | .backoff _ | .runExit => true
+  | _ => false
+
+/-- deterministic acceptance: fold `step` (D9-repaired code) over the events; the connections opened so far and not
+yet closed are tracked beside the model state and must be none whenever the model reaches a quiescent phase -/
+def replay (nw : Nat) (items : List (String × Item)) : String × Option St := Id.run do
   let cfg : Group.Cfg := ⟨nw, true⟩
   let mut s : St := {}
+  let mut opn : List Nat := []
   let mut i := 0
-  for (raw, e) in evs do
-    match Group.step cfg s e with
-    | some s' => s := s'
-    | none => return (s!"reject@{i}:{raw}", none)
+  for (raw, it) in items do
+    match it with
+    | .copen n => opn := n :: opn
+    | .cclose n => opn := opn.erase n
+    | .ev e =>
+      -- checked when the goroutine *leaves* a quiescent phase or exits: by then the deferred / trailing Close calls
+      -- of the previous phase have run
+      if quiescentPC s.pc && e.runLoop' && !opn.isEmpty then
+        return (s!"conns-open@{i}:{raw}:{opn.length}", none)
+      match Group.step cfg s e with
+      | some s' =>
+        s := s'
+        if s'.pc == .exited && !opn.isEmpty then
+          return (s!"conns-open@{i}:{raw}:{opn.length}", none)
+      | none => return (s!"reject@{i}:{raw}", none)
     i := i + 1
   return ("ok", some s)
 
 /-- C09 monitor on the raw event list: Close returns after `run` exited; the member id held last was sent in a
 LeaveGroup before; nothing but refused `Next` calls after Close returned -/
-def holds (evs : List Ev) : Bool :=
+def holds (items : List Item) : Bool :=
+  let evs := items.filterMap fun it => match it with | .ev e => some e | _ => none
+  -- "the connections a … ConsumerGroup opened are closed": none open when Close returns
+  let uptoRet := items.takeWhile fun it => match it with | .ev .closeRet => false | _ => true
+  let stillOpen := uptoRet.foldl (fun (acc : List Nat) it => match it with
+    | .copen n => n :: acc | .cclose n => acc.erase n | _ => acc) []
+  let m0 := !(evs.contains .closeRet) || stillOpen.isEmpty
   let z := evs.zipIdx
   let pos := fun (p : Ev → Bool) => (z.find? fun x => p x.1).map (·.2)
   let cc := pos (· == .closeCall)
@@ -456,30 +508,35 @@ def holds (evs : List Ev) : Bool :=
   let rx := pos (· == .runExit)
   let m1 := cc.isNone || (cr.isSome && rx.isSome && (match rx, cr with | some a, some b => a < b | _, _ => false))
   let upto := match rx with | some i => evs.take i | none => evs
-  let held := upto.foldl (fun (acc : Option String) e => match e with
-    | .joinOk _ m _ _ => some m
-    | .joinErr _ _ => none
-    | .leaveRes mi _ => if acc == some mi then none else acc
-    | _ => acc) none
+  -- (held member id, member id for which `leaveGroup` is running)
+  let hp := upto.foldl (fun (acc : Option String × Option String) e => match e with
+    | .joinOk _ m _ _ => (some m, none)
+    | .joinErr _ _ => (none, none)
+    | .leave m => (acc.1, if m == "" then none else some m)
+    | .leaveRes mi _ => (if acc.1 == some mi then none else acc.1, none)
+    -- the coordinator lookup of `leaveGroup` failed: the request cannot be sent; the property cannot ask for it
+    | .connectRes (some _) | .findRes (some _) => if acc.2.isSome && acc.2 == acc.1 then (none, none) else acc
+    | _ => acc) (none, none)
+  let held := hp.1
   let m2 := cc.isNone || held.isNone
   let m3 := match cr with
     | some i => z.all fun x => x.2 ≤ i || (match x.1 with | .nextCall | .nextRet (.err .closed) => true | _ => false)
     | none => true
-  m1 && m2 && m3
+  m0 && m1 && m2 && m3
 
 def run (cfgs : String) (trace : String) : String × Bool :=
   let nw := ((cfgs.splitOn ",").filterMap fun p => match p.splitOn "=" with | ["nw", v] => v.toNat? | _ => none).headD 0
   let toks := (trace.splitOn ";").filter (· ≠ "")
-  match toks.mapM (fun t => (parseEv t).map fun e => (t, e)) with
+  match toks.mapM (fun t => (parseItem t).map fun e => (t, e)) with
   | none => ("bad-trace", false)
   | some evs =>
     let (m, st) := replay nw evs
-    let evl := evs.map (·.2)
+    let evl := evs.filterMap fun x => match x.2 with | .ev e => some e | _ => none
     -- after an accepted trace that contains closeRet the model must be in `exited` with the group closed
     let fin : Bool := match st with
       | some s => !(evl.contains .closeRet) || (s.pc == .exited && s.closedCG)
       | none => true
-    (if fin then m else "final-state-not-exited", holds evl)
+    (if fin then m else "final-state-not-exited", holds (evs.map (·.2)))
 
 end G
 
